@@ -1,7 +1,7 @@
 (* C16 - generators: the index decoders used for skip sampling are bijections, the sampled
    indices are distinct and in range. *)
 From Coq Require Import List Arith Lia.
-From XV Require Import Base.Label Base.LSet Model.Decoders Proofs.Combs Proofs.DecoderProofs Proofs.SkipAll Proofs.CompleteProofs Base.ODict Base.Attr Base.Outcome Model.Hypergraph Model.SimplicialComplex Proofs.ScInv.
+From XV Require Import Base.Label Base.LSet Model.Decoders Proofs.Combs Proofs.DecoderProofs Proofs.SkipAll Proofs.CompleteProofs Model.Simple Proofs.SunflowerProofs Base.ODict Base.Attr Base.Outcome Model.Hypergraph Model.SimplicialComplex Proofs.ScInv.
 Import ListNotations.
 
 (* _index_to_edge_comb(index, n, m) is the index-th m-combination of range(n) in lexicographic
@@ -96,3 +96,13 @@ Proof.
   intros. apply SInv_add_simplices_from. apply SInv_add_simplices_from. apply SInv_add_nodes_from. apply SInv_empty.
 Qed.
 Print Assumptions C16_generated_complexes_closed.
+
+(* sunflower(l, c, m), c <= m: exactly l petals, each of exactly m distinct nodes containing the core 0..c-1, and
+   (for c < m) two different petals meet in the core only *)
+Theorem C16_sunflower : forall l c m, c <= m ->
+  length (sunflower_edges l c m) = l /\
+  (forall e, In e (sunflower_edges l c m) -> NoDup e /\ length e = m /\ (forall x, x < c -> In x e)) /\
+  (c < m -> forall p q, p < l -> q < l -> p <> q ->
+     forall x, In x (nth p (sunflower_edges l c m) []) -> In x (nth q (sunflower_edges l c m) []) -> x < c).
+Proof. exact sunflower_spec. Qed.
+Print Assumptions C16_sunflower.
